@@ -170,6 +170,11 @@ def modelled(*names):
     def deco(f):
         for n in names:
             MODELLED[n] = f
+            # def_path_str prints re-exported core items under std::
+            if n.startswith("core::"):
+                MODELLED["std::" + n[6:]] = f
+            elif n.startswith("std::"):
+                MODELLED["core::" + n[5:]] = f
         return f
     return deco
 
@@ -180,9 +185,10 @@ class Folder:
         self.max_depth = max_depth
         self.max_steps = max_steps
         self.stop = None
+        self.stop_block = None
 
     # ------------------------------------------------------------ public API
-    def run(self, fn_path, args, sym=None, cells=None, start=None, env=None, stop=None):
+    def run(self, fn_path, args, sym=None, cells=None, start=None, env=None, stop=None, stop_block=None):
         """Evaluate crate function `fn_path` on abstract `args`.
         sym=(ty, lo, hi): one argument may be ('sym',) and the result is a list of
         Results tiling [lo, hi]; otherwise a single Result.
@@ -198,6 +204,7 @@ class Folder:
         st = _State()
         st.sym = sym
         self.stop = stop
+        self.stop_block = stop_block
         if cells is not None:
             st.frames.append([None, {i: v for i, v in enumerate(cells)}, 0, 0, None, None])
             st.base = 1
@@ -293,6 +300,8 @@ class Folder:
             return None
         t = blk["term"]
         k = t["k"]
+        if self.stop_block is not None and len(st.frames) - st.base == 1 and b == self.stop_block and k == "switch":
+            raise _Stop({"switch": self._operand(st, t["op"])})
         if k == "goto":
             self._enter_block(st, t["target"])
         elif k == "drop":
@@ -935,6 +944,59 @@ def _is_some(folder, st, args, t):
     if v != TOP and v[0] == "adt":
         return mk_bool(v[3] == "Some")
     return TOP
+
+
+def _u8_or_char(folder, st, v):
+    v = _deref(folder, st, v)
+    if v != TOP and v[0] == "int":
+        return v[2]
+    if v != TOP and v[0] == "char":
+        return v[1]
+    return None
+
+
+def _char_pred(name, fn):
+    @modelled(*name)
+    def f(folder, st, args, t):
+        c = _u8_or_char(folder, st, args[0])
+        return TOP if c is None else mk_bool(fn(c))
+    return f
+
+
+import unicodedata as _ud  # noqa: E402
+
+_char_pred(("core::num::<impl u8>::is_ascii_alphanumeric", "core::char::methods::<impl char>::is_ascii_alphanumeric"),
+           lambda c: c < 128 and chr(c).isalnum())
+_char_pred(("core::num::<impl u8>::is_ascii_uppercase", "core::char::methods::<impl char>::is_ascii_uppercase"), lambda c: 65 <= c <= 90)
+_char_pred(("core::num::<impl u8>::is_ascii_lowercase", "core::char::methods::<impl char>::is_ascii_lowercase"), lambda c: 97 <= c <= 122)
+_char_pred(("core::num::<impl u8>::is_ascii_alphabetic", "core::char::methods::<impl char>::is_ascii_alphabetic"),
+           lambda c: 65 <= c <= 90 or 97 <= c <= 122)
+_char_pred(("core::num::<impl u8>::is_ascii", "core::char::methods::<impl char>::is_ascii"), lambda c: c < 128)
+_char_pred(("core::char::methods::<impl char>::is_ascii_digit",), lambda c: 48 <= c <= 57)
+_char_pred(("core::char::methods::<impl char>::is_numeric",), lambda c: _ud.category(chr(c)) in ("Nd", "Nl", "No"))
+_char_pred(("core::char::methods::<impl char>::is_alphanumeric",), lambda c: _ud.category(chr(c)) in ("Nd", "Nl", "No") or chr(c).isalpha())
+_char_pred(("core::char::methods::<impl char>::is_alphabetic",), lambda c: chr(c).isalpha())
+
+
+@modelled("core::char::convert::<impl std::convert::From<u8> for char>::from")
+def _char_from_u8(folder, st, args, t):
+    a = args[0]
+    if a != TOP and a[0] == "int":
+        return ("char", a[2])
+    return TOP
+
+
+@modelled("core::char::methods::<impl char>::is_digit")
+def _is_digit_radix(folder, st, args, t):
+    c = _u8_or_char(folder, st, args[0])
+    r = args[1]
+    if c is None or r == TOP or r[0] != "int":
+        return TOP
+    try:
+        int(chr(c), r[2])
+        return mk_bool(chr(c).isalnum() and c < 128)
+    except ValueError:
+        return mk_bool(False)
 
 
 def to_py(v):
